@@ -27,3 +27,13 @@ Theorem C01_unquoted_token : forall n b a ch tl,
   a_quoted ch = false -> valid_arg b a ch = true -> sep_start tl = true ->
   parse_next_value fl_arg (spaces n ++ render_arg a ch ++ tl) = POk (after tl, Some a).
 Proof. exact pnv_arg_u. Qed.
+
+(* non-vacuity: a line with label, output, command, an empty quoted argument, a quoted argument
+   with a space, an unquoted argument with escapes, a quoted argument beginning with '=', a
+   comment and surrounding white space satisfies wf and valid (and is rendered as stated) *)
+Theorem C01_nonvacuous :
+  wf ex_instr = true /\ valid ex_instr ex_choices = true /\
+  render_line ex_instr ex_choices =
+    [9; 58;108; 32;32; 111; 61; 32;32; 99; 32; 34;34; 32;32;32; 34;97;32;98;34; 32; 120;92;34;121;92;110;
+     32; 34;61;35;34; 32; 35; 32;34;92; 32;13].
+Proof. exact ex_in_domain. Qed.
